@@ -1,9 +1,13 @@
 (* Model/CacheModel.v — the provider-answer cache of bitcoinlib/services/services.py (class Cache) as a pure map.
    Definitions only.  The sqlite tables become association lists; the wall clock is an explicit argument [now]
-   (seconds).  What is modelled: cache_transactions (+ nodes, as one opaque record per transaction),
-   cache_address, cache_variables (blockcount, fee_high / fee_medium / fee_low with their expiry).
-   Not modelled: cache_blocks, the per-output spent flags, the address index over transaction nodes
-   (Cache.getutxos / Cache.gettransactions). *)
+   (seconds).
+   First part (cache): cache_transactions by id (one opaque record per transaction), cache_address,
+   cache_variables (blockcount, fee_high / fee_medium / fee_low with their expiry).
+   Second part (xcache, further down): the address index and the blocks — cache_transactions +
+   cache_transactions_node read by address in (block_height, index) order (Cache.gettransactions with after_txid /
+   limit / last_block, Cache.getutxos with the per-output spent flags, Cache.store_transaction(t, index),
+   Cache.store_utxo, Cache.store_address with txs_complete), cache_blocks (Cache.getblock, store_block) and the block
+   pages (Cache.getblocktransactions). *)
 From Coq Require Import ZArith List Bool.
 From Verif Require Import Gen.GenService.
 Import ListNotations.
@@ -116,3 +120,213 @@ Definition cache_store_fee (c : cache) (now blocks fee : Z) : cache := cache_var
 Definition cache_blockcount (c : cache) (now : Z) : option Z := cache_var_get c now var_blockcount.
 Definition cache_blockcount_never (c : cache) : option Z := cache_var_get_never c var_blockcount.
 Definition cache_store_blockcount (c : cache) (now n : Z) : cache := cache_var_set c var_blockcount n (now + svc_blockcount_ttl).
+
+(* ====================================================================================================
+   The address index: cache_transactions + cache_transactions_node read by address
+   (Cache.gettransactions / Cache.getutxos / Cache.gettransaction / Cache.store_transaction(t, index) /
+   Cache.store_utxo / Cache.store_address(txs_complete=True)).
+
+   A transaction as an address query sees it: ONE input and ONE observed output.
+     atx_height   block_height; 0 stands for None (unconfirmed: confirmations = 0, no date)
+     atx_storable every input carries its value (Cache.store_transaction refuses the transaction otherwise)
+     atx_src      the input belongs to address (fst) and is worth (snd); None: a foreign address
+     atx_prev     (prev_txid, output_n) the input spends
+     atx_dst      the address paid by the observed output; None: a foreign address
+     atx_oidx     output_n of the observed output, atx_value its value, atx_spent its spent flag
+   Rows are kept in insertion order (the order SQLite scans them in); a row carries the `index` it was stored
+   with (-1 stands for NULL: store_transaction(t) without index). *)
+Record atx := {
+  atx_id : Z; atx_height : Z; atx_storable : bool;
+  atx_src : option (Z * Z); atx_prev : Z * Z;
+  atx_dst : option Z; atx_oidx : Z; atx_value : Z; atx_spent : option bool
+}.
+
+Record utxo := { u_txid : Z; u_n : Z; u_value : Z; u_height : Z }.
+
+Record row := { r_tx : atx; r_index : Z }.
+
+(* xc_blocks: cache_blocks, block height -> tx_count (the header fields travel unchanged and are not modelled) *)
+Record xcache := { xc_base : cache; xc_rows : list row; xc_blocks : list (Z * Z) }.
+
+Definition empty_xcache (on : bool) : xcache := {| xc_base := empty_cache on; xc_rows := []; xc_blocks := [] |}.
+Definition with_base (c : xcache) (b : cache) : xcache := {| xc_base := b; xc_rows := xc_rows c; xc_blocks := xc_blocks c |}.
+Definition with_rows (c : xcache) (l : list row) : xcache := {| xc_base := xc_base c; xc_rows := l; xc_blocks := xc_blocks c |}.
+Definition with_blocks (c : xcache) (l : list (Z * Z)) : xcache := {| xc_base := xc_base c; xc_rows := xc_rows c; xc_blocks := l |}.
+Definition xc_on (c : xcache) : bool := c_on (xc_base c).
+
+Definition addr_is (a : Z) (o : option Z) : bool := match o with Some a' => a' =? a | None => false end.
+Definition src_addr (t : atx) : option Z := match atx_src t with Some (a, _) => Some a | None => None end.
+Definition src_value (t : atx) : Z := match atx_src t with Some (_, v) => v | None => 0 end.
+
+(* join(DbCacheTransactionNode).filter(DbCacheTransactionNode.address == address): some node carries the address;
+   the ORM returns each transaction once *)
+Definition touches (a : Z) (t : atx) : bool := addr_is a (src_addr t) || addr_is a (atx_dst t).
+Definition pays (a : Z) (t : atx) : bool := addr_is a (atx_dst t).
+
+Fixpoint find_row (txid : Z) (l : list row) : option row :=
+  match l with
+  | [] => None
+  | r :: tl => if atx_id (r_tx r) =? txid then Some r else find_row txid tl
+  end.
+
+(* order_by(DbCacheTransaction.block_height, DbCacheTransaction.index): ascending, NULL first, rows with equal keys
+   stay in scan (= insertion) order *)
+Definition row_lt (x y : row) : bool :=
+  (atx_height (r_tx x) <? atx_height (r_tx y)) ||
+  ((atx_height (r_tx x) =? atx_height (r_tx y)) && (r_index x <? r_index y)).
+
+Fixpoint insert_row (x : row) (l : list row) : list row :=
+  match l with
+  | [] => [x]
+  | y :: tl => if row_lt y x then y :: insert_row x tl else x :: l
+  end.
+
+Fixpoint sort_rows (l : list row) : list row :=
+  match l with
+  | [] => []
+  | x :: tl => insert_row x (sort_rows tl)
+  end.
+
+(* Cache.store_transaction(t, index): False = refused (incomplete), Done = stored or nothing to do *)
+Inductive store_res := StFalse | StDone.
+
+Definition xc_store_tx (c : xcache) (t : atx) (index : Z) : store_res * xcache :=
+  if negb (xc_on c) then (StDone, c)
+  else if (atx_height t =? 0) || negb (atx_storable t) then (StFalse, c)
+  else match find_row (atx_id t) (xc_rows c) with
+       | Some _ => (StDone, c)                                   (* an existing row is never overwritten *)
+       | None => (StDone, with_rows c (xc_rows c ++ [{| r_tx := t; r_index := index |}]))
+       end.
+
+(* Cache.gettransaction(txid) *)
+Definition xc_gettx (c : xcache) (txid : Z) : option atx :=
+  if xc_on c then match find_row txid (xc_rows c) with Some r => Some (r_tx r) | None => None end else None.
+
+(* the loop  `db_txs2.append(d); if d.txid == after_txid: db_txs2 = []` *)
+Fixpoint after_reset (aid : Z) (acc : list row) (l : list row) : list row :=
+  match l with
+  | [] => acc
+  | d :: tl => if atx_id (r_tx d) =? aid then after_reset aid [] tl else after_reset aid (acc ++ [d]) tl
+  end.
+
+(* `txs.append(t); if len(txs) >= limit: break`: at least one element when there is one *)
+Definition take_limit {A} (limit : Z) (l : list A) : list A := firstn (Z.to_nat (Z.max limit 1)) l.
+
+(* Cache.gettransactions(address, after_txid, limit); [] also stands for the False of a disabled cache *)
+Definition xc_gettransactions (c : xcache) (a : Z) (after : option Z) (limit : Z) : list atx :=
+  if negb (xc_on c) then []
+  else match cache_getaddr (xc_base c) a with
+  | None => []
+  | Some rec =>
+    let mine := filter (fun r => touches a (r_tx r)) (xc_rows c) in
+    let sel :=
+      match after with
+      | None => sort_rows mine
+      | Some aid =>
+        match find_row aid (xc_rows c), a_last_block rec with
+        | Some ar, Some lb =>
+          if lb =? 0 then []
+          else after_reset aid []
+                 (sort_rows (filter (fun r => (atx_height (r_tx ar) <=? atx_height (r_tx r)) &&
+                                              (atx_height (r_tx r) <=? lb)) mine))
+        | _, _ => []
+        end
+      end in
+    map r_tx (take_limit limit sel)
+  end.
+
+(* Cache.getutxos(address, after_txid): output nodes of the address in (block_height, index) order;
+   an output whose spent flag is unknown ends the scan *)
+Definition utxo_of (t : atx) : utxo :=
+  {| u_txid := atx_id t; u_n := atx_oidx t; u_value := atx_value t; u_height := atx_height t |}.
+
+Fixpoint utxo_scan (after : option Z) (acc : list utxo) (l : list row) : list utxo :=
+  match l with
+  | [] => acc
+  | r :: tl =>
+    let t := r_tx r in
+    match atx_spent t with
+    | None => acc                                                              (* elif db_utxo.spent is None: return utxos *)
+    | Some sp =>
+      let acc1 := if sp then acc else acc ++ [utxo_of t] in
+      let acc2 := match after with Some aid => if atx_id t =? aid then [] else acc1 | None => acc1 end in
+      utxo_scan after acc2 tl
+    end
+  end.
+
+Definition xc_getutxos (c : xcache) (a : Z) (after : option Z) : list utxo :=
+  if negb (xc_on c) then []
+  else utxo_scan after [] (sort_rows (filter (fun r => pays a (r_tx r)) (xc_rows c))).
+
+(* Cache.store_utxo(txid, index_n): the output becomes "unspent" when the transaction is cached *)
+Definition set_spent (t : atx) (sp : option bool) : atx :=
+  {| atx_id := atx_id t; atx_height := atx_height t; atx_storable := atx_storable t; atx_src := atx_src t;
+     atx_prev := atx_prev t; atx_dst := atx_dst t; atx_oidx := atx_oidx t; atx_value := atx_value t; atx_spent := sp |}.
+
+Definition xc_store_utxo (c : xcache) (txid n : Z) : xcache :=
+  if negb (xc_on c) then c
+  else with_rows c (map (fun r => if (atx_id (r_tx r) =? txid) && (atx_oidx (r_tx r) =? n)
+                                  then {| r_tx := set_spent (r_tx r) (Some false); r_index := r_index r |} else r)
+                        (xc_rows c)).
+
+(* Cache.store_address(address, last_block, balance, n_utxos, txs_complete): with txs_complete the counters are
+   recomputed from the cached nodes of the address.  [balance]: None = Python None, Some 0 also stands for the
+   default 0 / False. *)
+Definition cache_store_address_full (c : cache) (a : Z) (last_block balance n_utxos n_txs : option Z) : cache :=
+  if negb (c_on c) then c
+  else
+    let old := assoc_get a (c_addrs c) in
+    let ob := match old with Some r => a_balance r | None => Some 0 end in
+    let ol := match old with Some r => a_last_block r | None => None end in
+    let ot := match old with Some r => a_n_txs r | None => None end in
+    let ou := match old with Some r => a_n_utxos r | None => None end in
+    let r := {| a_balance := keep_old balance ob; a_last_block := keep_old_truthy last_block ol;
+                a_n_txs := keep_old n_txs ot; a_n_utxos := keep_old n_utxos ou |} in
+    {| c_on := c_on c; c_txs := c_txs c; c_addrs := assoc_set a r (c_addrs c); c_vars := c_vars c |}.
+
+Definition count_if {A} (f : A -> bool) (l : list A) : Z := Z.of_nat (length (filter f l)).
+
+Fixpoint zsum_map {A} (f : A -> Z) (l : list A) : Z :=
+  match l with [] => 0 | x :: tl => f x + zsum_map f tl end.
+
+(* sum of the output nodes of the address minus the sum of its input nodes *)
+Definition node_balance (a : Z) (rows : list row) : Z :=
+  zsum_map (fun r => (if pays a (r_tx r) then atx_value (r_tx r) else 0)
+                     - (if addr_is a (src_addr (r_tx r)) then src_value (r_tx r) else 0)) rows.
+
+Definition xc_store_address (c : xcache) (a : Z) (last_block balance n_utxos : option Z) (complete : bool) : xcache :=
+  if negb complete then with_base c (cache_store_address_full (xc_base c) a last_block balance n_utxos None)
+  else
+    let n_txs := count_if (fun r => touches a (r_tx r)) (xc_rows c) in
+    let outs := filter (fun r => pays a (r_tx r)) (xc_rows c) in
+    let n_utxos' :=
+      match n_utxos with
+      | Some n => Some n
+      | None =>
+        if existsb (fun r => match atx_spent (r_tx r) with None => true | Some _ => false end) outs then None
+        else Some (count_if (fun r => match atx_spent (r_tx r) with Some false => true | _ => false end) outs)
+      end in
+    let balance' :=
+      match balance with
+      | Some b => if b =? 0 then Some (node_balance a (xc_rows c)) else Some b
+      | None => Some (node_balance a (xc_rows c))
+      end in
+    with_base c (cache_store_address_full (xc_base c) a last_block balance' n_utxos' (Some n_txs)).
+
+(* ---- blocks: Cache.getblock(height) / Cache.getblocktransactions(height, page, limit) / Cache.store_block ---- *)
+Definition xc_getblock (c : xcache) (h : Z) : option Z :=
+  if xc_on c then assoc_get h (xc_blocks c) else None.
+
+(* filter(block_height == height, index >= n_from, index < n_to).all(): without ORDER BY (Gen.svc_cbt_order = [])
+   the rows come in scan (= insertion) order, with one they are sorted; a row without index never matches *)
+Definition xc_getblocktransactions_gen (order : list Z) (c : xcache) (h page limit : Z) : list atx :=
+  if negb (xc_on c) then []
+  else
+    let sel := filter (fun r => (atx_height (r_tx r) =? h) && (0 <=? r_index r) &&
+                                ((page - 1) * limit <=? r_index r) && (r_index r <? page * limit)) (xc_rows c) in
+    map r_tx (match order with [] => sel | _ => sort_rows sel end).
+
+Definition xc_getblocktransactions := xc_getblocktransactions_gen svc_cbt_order.
+
+Definition xc_store_block (c : xcache) (h cnt : Z) : xcache :=
+  if negb (xc_on c) then c else with_blocks c (assoc_set h cnt (xc_blocks c)).
